@@ -88,7 +88,7 @@ def check_case(sink, seed, idx):  # noqa: C901
         if other_nil.num_leaves:
             k3, v3 = outcome(lambda: optree.tree_transpose(ospec, other_nil, tree, is_leaf=o.is_leaf))
             sink.check(k3 == 'ValueError', 'reject/none_is_leaf-mismatch', 'mismatching none_is_leaf raises', ident, lambda: (k3, repr(v3)[:200]))
-        if ospec.namespace and idx % 2:
+        if ospec.namespace and rng.random() < 0.5:
             foreign = optree.tree_structure(U.CNs([1]), namespace=U.NS) if ospec.namespace != U.NS else None
             if foreign is None:
                 with optree.dict_insertion_ordered(True, namespace=U.NS_OTHER):
@@ -123,7 +123,7 @@ def check_case(sink, seed, idx):  # noqa: C901
         variants = [('tree_transpose_map', optree.tree_transpose_map, optree.tree_map, None),
                     ('tree_transpose_map_with_path', optree.tree_transpose_map_with_path, optree.tree_map_with_path, 'path'),
                     ('tree_transpose_map_with_accessor', optree.tree_transpose_map_with_accessor, optree.tree_map_with_accessor, 'accessor')]
-        name, tfn, mfn, first = variants[idx % 3]
+        name, tfn, mfn, first = variants[(idx // 30) % 3]  # independent of the outer / inner profile rotation
         firsts = []
 
         def g(*args):
@@ -132,8 +132,8 @@ def check_case(sink, seed, idx):  # noqa: C901
                 return f(*args[1:])
             return f(*args)
 
-        rests = [otree] if idx % 4 == 0 else []
-        given = ispec if idx % 2 else None
+        rests = [otree] if rng.random() < 0.3 else []
+        given = ispec if rng.random() < 0.5 else None
         k6, tm = outcome(lambda: tfn(g, otree, *rests, inner_treespec=given, **kw))
         sink.check(k6 == 'ok', f'{name}/raises', f'{name} succeeds for a fixed inner shape', ident, lambda: repr(tm)[:300])
         if k6 == 'ok':
@@ -148,11 +148,12 @@ def check_case(sink, seed, idx):  # noqa: C901
                                              and all(_eq(x, y) for x, y in zip(a if first == 'path' else a.path, p)) for a, p in zip(got, paths))
                 sink.check(okp, f'{name}/first-argument', f'{name} passes the path/accessor first', ident, lambda: (got, paths))
             sink.count(f'transpose-maps:{name}')
+            sink.cell('variant-profile', name, po, given is not None, bool(rests))
         # deviating inner shape: one result is not a suffix of the inner structure -> ValueError (any variant, any position; with a given
         # inner structure also the first result)
         if m >= 2 and ispec.num_nodes > 1:
-            dname, dfn, _, dfirst = variants[(idx // 3) % 3]
-            dgiven = ispec if (idx // 9) % 2 else None
+            dname, dfn, _, dfirst = rng.choice(variants)
+            dgiven = ispec if rng.random() < 0.5 else None
             pos = rng.randrange(1 if dgiven is not None else 2, m + 1)
             calls = [0]
 
